@@ -1,6 +1,7 @@
 package props
 
 import (
+	"encoding/json"
 	"fmt"
 	"math"
 	"regexp"
@@ -39,6 +40,9 @@ type Crit struct {
 type SQLCase struct {
 	C     *Crit             `json:"criteria"`
 	Bound map[string]*m.Val `json:"bound"` // run-time environment (subset of the parameters)
+	// a second run-time environment for the same compiled criteria (other values, possibly
+	// other names bound); nil = none
+	Bound2 map[string]*m.Val `json:"bound2,omitempty"`
 }
 
 var uType = m.Obj(m.Field{Name: "id", T: m.Num}, m.Field{Name: "name", T: m.Str}, m.Field{Name: "at", T: m.Time}, m.Field{Name: "ok", T: m.Bool})
@@ -74,6 +78,7 @@ func sqlValue(t *rapid.T, ty *m.Type) *m.Val {
 type sqlGen struct {
 	t     *rapid.T
 	bound map[string]*m.Val
+	pool  []*Crit // sub-criteria generated so far: one in five positions repeats one of them
 }
 
 func (g *sqlGen) operand(ty *m.Type) Operand {
@@ -120,6 +125,16 @@ func (g *sqlGen) leaf() *Crit {
 }
 
 func (g *sqlGen) crit(d int) *Crit {
+	if len(g.pool) > 0 && rapid.IntRange(0, 4).Draw(g.t, "repeat") == 0 {
+		// the same condition or group once more, under whatever parent comes here
+		return g.pool[rapid.IntRange(0, len(g.pool)-1).Draw(g.t, "which")]
+	}
+	c := g.crit0(d)
+	g.pool = append(g.pool, c)
+	return c
+}
+
+func (g *sqlGen) crit0(d int) *Crit {
 	if d <= 0 || rapid.IntRange(0, 3).Draw(g.t, "leaf") == 0 {
 		return g.leaf()
 	}
@@ -150,7 +165,27 @@ func genSQLCase(t *rapid.T) *SQLCase {
 		}
 		g.bound["u"] = u
 	}
-	return &SQLCase{C: g.crit(rapid.IntRange(0, 5).Draw(t, "depth")), Bound: g.bound}
+	c := &SQLCase{C: g.crit(rapid.IntRange(0, 5).Draw(t, "depth")), Bound: g.bound}
+	if rapid.IntRange(0, 2).Draw(t, "second") == 0 {
+		c.Bound2 = map[string]*m.Val{}
+		for _, p := range []string{"pn", "ps", "pt", "pb"} {
+			if rapid.Bool().Draw(t, "bind2") {
+				c.Bound2[p] = sqlValue(t, sqlSchema[p])
+			}
+		}
+		if _, hasU := g.bound["u"]; hasU {
+			// member access on u is only generated when u is bound, so it stays bound
+			u := &m.Val{T: uType}
+			for _, f := range uType.F {
+				u.L = append(u.L, sqlValue(t, f.T))
+			}
+			if rapid.Bool().Draw(t, "permuteu2") {
+				u = gen.PermuteVal(t, u)
+			}
+			c.Bound2["u"] = u
+		}
+	}
+	return c
 }
 
 // ---- building the yae criteria
@@ -342,30 +377,61 @@ func critStats(c *Crit) (conns map[string]bool, depth int, hostile bool) {
 	return
 }
 
+// repeatsGroup: some AND / OR / NOT group occurs at two places of the tree.
+func repeatsGroup(c *Crit) bool {
+	seen := map[string]int{}
+	var w func(x *Crit) string
+	w = func(x *Crit) string {
+		b, _ := json.Marshal(x)
+		if x.Op != "leaf" {
+			seen[string(b)]++
+		}
+		for _, k := range x.Kids {
+			w(k)
+		}
+		return string(b)
+	}
+	w(c)
+	for _, n := range seen {
+		if n > 1 {
+			return true
+		}
+	}
+	return false
+}
+
 func checkSQL(c *SQLCase) *Outcome {
 	var f func(v interface{}) (string, error)
 	if p := run.Guard(func() { f = ext.CompileToSql(toCriteria(c.C), run.TypeEnv(sqlSchema)) }); p != nil {
 		return bad("CompileToSql failed on well-typed criteria: %s", p.Text)
 	}
-	ve := val.NewEnv()
-	for n, v := range c.Bound {
-		ve.Put(n, run.ToYaeVal(v, nil))
-	}
-	var sql string
-	var err error
-	if p := run.Guard(func() { sql, err = f(ve) }); p != nil {
-		return bad("generating SQL panicked: %s", p.Text)
-	}
-	if err != nil {
-		return bad("generating SQL failed: %v", err)
-	}
-	tree, rerr := ref.ReadSQL(sql)
-	if rerr != nil {
-		return bad("the WHERE text does not read as a boolean expression: %v\n text: %s", rerr, sql)
-	}
 	want := flattenCrit(c.C)
-	if err := c.matchTree(tree, want, "$"); err != nil {
-		return bad("%v\n text: %s\n reads as: %s", err, sql, tree)
+	envs := []map[string]*m.Val{c.Bound}
+	if c.Bound2 != nil {
+		envs = append(envs, c.Bound2, c.Bound)
+	}
+	for round, bound := range envs {
+		ve := val.NewEnv()
+		for n, v := range bound {
+			ve.Put(n, run.ToYaeVal(v, nil))
+		}
+		var sql string
+		var err error
+		if p := run.Guard(func() { sql, err = f(ve) }); p != nil {
+			return bad("generating SQL panicked (invocation %d): %s", round+1, p.Text)
+		}
+		if err != nil {
+			return bad("generating SQL failed (invocation %d): %v", round+1, err)
+		}
+		tree, rerr := ref.ReadSQL(sql)
+		if rerr != nil {
+			return bad("the WHERE text does not read as a boolean expression (invocation %d): %v\n text: %s", round+1, rerr, sql)
+		}
+		cc := *c
+		cc.Bound = bound
+		if err := cc.matchTree(tree, want, "$"); err != nil {
+			return bad("invocation %d: %v\n text: %s\n reads as: %s", round+1, err, sql, tree)
+		}
 	}
 	conns, depth, hostile := critStats(c.C)
 	classes := []string{fmt.Sprintf("depth:%d", depth)}
@@ -375,13 +441,19 @@ func checkSQL(c *SQLCase) *Outcome {
 	if len(c.Bound) > 0 {
 		classes = append(classes, "bound-names")
 	}
+	if c.Bound2 != nil {
+		classes = append(classes, "second-environment")
+	}
+	if repeatsGroup(c.C) {
+		classes = append(classes, "repeated-group")
+	}
 	return ok(len(conns) >= 2 || hostile, classes...)
 }
 
 var c20 = Register(&Prop[SQLCase]{ID: "C20", Name: "sql-structure-and-quoting", Gen: genSQLCase, Check: checkSQL})
 
 func TestC20(t *testing.T) {
-	R.Rule = "criteria trees over AND / OR (binary) / NOT to depth 5 in every parent / child combination; leaves = <> > >= < <= on num / str / time / bool columns, IN lists, BETWEEN, LIKE, IS NULL; operands: literals, names bound in the run-time environment (substituted by their values), names that are columns, member access on a bound object (its fields in a drawn order); strings from a hostile pool (all three quote characters, backslashes, control characters, NUL, non-ASCII, SQL look-alikes) and random ones; finite numbers incl. > 2^53, >= 2^63, 1e21, 5e-324; oracle: the output is read back by a SQL reader with standard precedence (comparison, NOT, AND, OR) and, with same-connective nesting flattened, must be the criteria tree; each string operand is exactly one literal token that decodes to the operand, numbers are plain positional decimals that read back exactly, booleans 1 / 0, times from_unixtime(unix); non-trivial = >= 2 different connectives, or a string operand with a quote or backslash"
+	R.Rule = "criteria trees over AND / OR (binary) / NOT to depth 5 in every parent / child combination; leaves = <> > >= < <= on num / str / time / bool columns, IN lists, BETWEEN, LIKE, IS NULL; operands: literals, names bound in the run-time environment (substituted by their values), names that are columns, member access on a bound object (its fields in a drawn order); one position in five repeats a condition or group generated earlier in the same tree; one case in three invokes the compiled criteria with a second environment and then the first again; strings from a hostile pool (all three quote characters, backslashes, control characters, NUL, non-ASCII, SQL look-alikes) and random ones; finite numbers incl. > 2^53, >= 2^63, 1e21, 5e-324; oracle: the output is read back by a SQL reader with standard precedence (comparison, NOT, AND, OR) and, with same-connective nesting flattened, must be the criteria tree; each string operand is exactly one literal token that decodes to the operand, numbers are plain positional decimals that read back exactly, booleans 1 / 0, times from_unixtime(unix); non-trivial = >= 2 different connectives, or a string operand with a quote or backslash"
 	R.Assume = []string{"ref.ReadSQL (harness) is standard SQL precedence; faithfulness of control-character escapes under a particular SQL dialect is not checked"}
 	reportKnown(t, "C20")
 	runRegress(t, "C20")
